@@ -25,6 +25,8 @@ for sid in sorted(os.listdir(os.path.join(ROOT, "seeded"))):
     fired = {}
     for i in range(1, 17):
         pid = "C%02d" % i
+        if os.environ.get("SWEEP_CHECKS") and pid not in os.environ["SWEEP_CHECKS"].split():
+            continue
         rr = subprocess.run([os.path.join(ROOT, "check"), pid], cwd=ROOT, env=dict(os.environ, VERIF_REPO=SCR), capture_output=True, text=True)
         if rr.returncode == 1:
             fired[pid] = [k[:200] for k in re.findall(r"^\s+(?:FINDING|ANCHOR-MISSING|FLOOR) (.*)$", rr.stdout, re.M)][:5]
@@ -32,7 +34,8 @@ for sid in sorted(os.listdir(os.path.join(ROOT, "seeded"))):
             fired[pid] = ["<rc=%d>" % rr.returncode]
     meta["checks_fired"] = fired
     meta["detected_by_property_check"] = meta["property"] in fired
-    json.dump(meta, open(os.path.join(d, "meta.json"), "w"), indent=1)
+    if not os.environ.get("SWEEP_CHECKS"):   # a partial run (subset of checks) does not rewrite the archive
+        json.dump(meta, open(os.path.join(d, "meta.json"), "w"), indent=1)
     rows.append((sid, meta["property"], meta["detected_by_property_check"], sorted(fired)))
     print("%-8s target=%s detected_by_own_check=%s fired=%s" % rows[-1])
     sys.stdout.flush()
